@@ -519,7 +519,7 @@ func (w *World) CheckSweep(out *Outcome, runs []*Obs) []Violation {
 		for _, o := range runs[1:] {
 			if (outcome(o) == "ok") != first {
 				oracle := "outcome-varies-with-order"
-				if subst && w.staleVersionPattern(runs) && hasMultiCandidatePoint(out) {
+				if subst && w.staleVersionPattern(runs) && (hasMultiCandidatePoint(out) || w.hasWireAndFuncHolder()) {
 					oracle = "outcome-varies-under-substitution"
 				}
 				vs = append(vs, v("C10", oracle, "", fmt.Sprintf("no point of the program is tied, yet run %s ended %s (%s%s) and run %s ended %s (%s%s)",
@@ -639,6 +639,27 @@ func (w *World) replacedBeforeInstantiation(id string) bool {
 			if r.Target == id && r.At == sdl.CbBeforeInst {
 				return true
 			}
+		}
+	}
+	return false
+}
+
+// hasWireAndFuncHolder: some component has both a wire-tagged and a func-tagged point. The
+// two tag scanners file their properties in the order in which the registry enumerated the
+// scanners, so which of the holder's dependencies is created first - and thereby where a
+// cycle is entered - depends on the enumeration order (the second precondition of D9).
+func (w *World) hasWireAndFuncHolder() bool {
+	for _, t := range w.P.Types {
+		wire, fn := false, false
+		for _, pt := range t.Points {
+			if pt.Sel == sdl.SelFunc {
+				fn = true
+			} else {
+				wire = true
+			}
+		}
+		if wire && fn {
+			return true
 		}
 	}
 	return false
